@@ -57,6 +57,12 @@ CLAIMED = {
             "bound-updating entry, frame-size bounds come from count_bits/8, and the final short frame cannot lower "
             "the minimum block size (disjunctive rule accepting either repair style). Numeric values are not "
             "decided.", "4/C04"),
+    "C10": ("STATE-ENUM over static/type facts + RESET append-before-define typestate (interprocedural, closures "
+            "included) + KEY injectivity slicing + LOCKORDER graph",
+            "The inventory of everything that survives a call is complete (only thread-local reusable storages and "
+            "immutable Freeze statics), no reusable buffer is appended to before being cleared/reset/resized, cache "
+            "keys are injective in the lookup parameters, and no storage is re-entered while borrowed. Complete "
+            "overwrite of length-set buffers before reads is not decided.", "4/C10"),
 }
 
 NA = {
